@@ -20,6 +20,8 @@ ap.add_argument('dir')
 ap.add_argument('--checks', default=','.join(ALL))
 ap.add_argument('--seeds', default='1')
 ap.add_argument('--tier', default='quick')
+ap.add_argument('--primary', default=None, help='property the change was written against (run at full scale)')
+ap.add_argument('--others-scale', default='0.3')
 a = ap.parse_args()
 d = os.path.abspath(a.dir)
 meta_path = os.path.join(d, 'meta.json')
@@ -49,10 +51,12 @@ try:
         for seed in a.seeds.split(','):
             env = dict(os.environ, DROOP_REPO=dst, VERIF_SEED=seed)
             t0 = time.time()
-            r = subprocess.run(['./check', pid, '--no-evidence', '--tier', a.tier], cwd='/verif', env=env, capture_output=True, text=True)
+            primary = a.primary or meta.get('property') or os.path.basename(d).split('-')[-1]
+            scale = '1' if pid == primary else a.others_scale
+            r = subprocess.run(['./check', pid, '--no-evidence', '--tier', a.tier, '--scale', scale], cwd='/verif', env=env, capture_output=True, text=True)
             sigs = [l.strip()[4:].split(' count=')[0] for l in r.stdout.splitlines() if l.startswith('   sig=')]
             verdict = {0: 'quiet', 1: 'VIOLATION', 2: 'harness-error'}.get(r.returncode, str(r.returncode))
-            results['%s@%s' % (pid, seed)] = dict(verdict=verdict, sigs=sigs[:6], wall_s=round(time.time() - t0, 1))
+            results['%s@%s' % (pid, seed)] = dict(verdict=verdict, sigs=sigs[:6], wall_s=round(time.time() - t0, 1), scale=scale)
             print('  %s seed=%s %s %s' % (pid, seed, verdict, sigs[:3]))
             if r.returncode == 2:
                 print(r.stdout[-800:])
